@@ -77,7 +77,16 @@ def register_in_group(
         pgroup._VERSIONS[pg_ref.name].append(pg_ref)
         pgroup._VERSIONS[pg_ref.name].sort()  # must be in ascending order
 
-        pgroup._load_plugin(ep_name, plugin)
+        try:
+            pgroup._load_plugin(ep_name, plugin)
+        except Exception:
+            # a refused plugin is not registered
+            pgroup._ENTRY_POINTS.pop(ep_name, None)
+            pgroup._LOADED_PLUGINS.pop(pg_ref, None)
+            pgroup._VERSIONS[pg_ref.name].remove(pg_ref)
+            if not pgroup._VERSIONS[pg_ref.name]:
+                del pgroup._VERSIONS[pg_ref.name]
+            raise
         if not violently:
             eprint(
                 f"Notebook: Plugin '{pginfo.name}' registered in '{pgroup.name}' group!"
